@@ -20,7 +20,7 @@ def classify_crash(cr):
 
 SPEC = {
     'id': 'C12',
-    'lean_modules': ['AITB.Props.C12Spec', 'AITB.Props.C12Interp', 'AITB.Props.C12InterpOpt', 'AITB.Props.C12CheckSound', 'AITB.Props.C12PruneStrong'],
+    'lean_modules': ['AITB.Props.C12Spec', 'AITB.Props.C12Interp', 'AITB.Props.C12InterpOpt', 'AITB.Props.C12CheckSound', 'AITB.Props.C12PruneStrong', 'AITB.Props.C12InterpValue'],
     'theorems': [
         # headline statements (library tolerances / exact reading)
         'AITB.Prune.extractDominated_spec', 'AITB.Prune.extractDominated_exact_spec',
@@ -54,6 +54,8 @@ SPEC = {
         'AITB.Interp.lpInterp_variant_agree_full_support', 'AITB.Interp.lpInterp_asFound_slot_witness', 'AITB.Interp.lpInterp_repaired_slot_witness',
         'AITB.Interp.lpInterp_asFound_nan_witness', 'AITB.Interp.lpInterp_repaired_nan_witness', 'AITB.Interp.lpinterp_weights',
         'AITB.Interp.sawtooth_bounds', 'AITB.Interp.lpinterp_optimal', 'AITB.Interp.lpinterp_optimal_needs_mass',
+        'AITB.Interp.sawtooth_value_variant_independent', 'AITB.Interp.lpInterp_value_tail_independent',
+        'AITB.Interp.sawtooth_defined_of_nonempty', 'AITB.Interp.sawtooth_none_only_if_empty',
     ],
     'harness': 'harness/c12.cpp',
     'level': 'proof',
@@ -67,7 +69,8 @@ SPEC = {
             'LPInterpolation and sawtoothInterpolation. non-trivial = at least two vectors / at least one stored point; distinct by protocol line',
     'modelled': ['include/AIToolbox/Utils/Polytope.hpp: dominates, findBestAtPoint, findBestAtSimplexCorner, extractBestAtPoint, extractBestAtSimplexCorners',
                  'include/AIToolbox/Utils/Prune.hpp: extractDominated, extractDominatedIncremental, Pruner::operator() (witness LP = oracle replayed from a recorded trace)',
-                 'src/Utils/Polytope.cpp: LPInterpolation (LP = oracle read back from the returned weights), sawtoothInterpolation'],
+                 'src/Utils/Polytope.cpp: LPInterpolation (LP = oracle read back from the returned weights), sawtoothInterpolation',
+                 'NOT modelled, clauses of the documentation checked on outputs only: extractBestUsefulPoints (Polytope.hpp)'],
     'assumptions': ['lp_solve (through AIToolbox::LP / WitnessLP) is an oracle: its answers are checked per call by exact certificates, never trusted',
                     'IEEE rounding is outside the theorems; inputs are dyadic so that the differential comparison is exact, comparisons within 1e-12 of a tolerance threshold are skipped'],
     'trusted_base': ['tools/extract_c12.py (decides which reading of four statements of Polytope.cpp the model takes)'],
